@@ -333,6 +333,7 @@ type observation struct {
 	Accept bool
 	Err    string
 	Viol   []string // violation keys with text "key :: what"
+	Rec    []string // observations the statement leaves open: recorded in the evidence, never judged
 }
 
 func revResults(kind int) ([]result.Result, error) {
@@ -469,6 +470,11 @@ func (w *world) run(lv vt.Level, c cell) observation {
 		}
 		obs.Viol = append(obs.Viol, key+" :: "+what)
 	}
+	// The statement fixes verdicts, the action of every reported result, that logged failures are reported, that a
+	// skipped revocation is not performed and that a declared capability replaces the native check. It does not fix
+	// how often a collaborator is asked, whether passed validations are listed, or whether a type is listed twice:
+	// those observations are recorded only.
+	rec := func(key string) { obs.Rec = append(obs.Rec, key) }
 
 	// 1. the verdict
 	if want.Accept && !obs.Accept {
@@ -497,7 +503,7 @@ func (w *world) run(lv vt.Level, c cell) observation {
 			bad("results/wrong-action:"+string(r.Type), fmt.Sprintf("result of type %s carries action %q, level assigns %q", r.Type, r.Action, lv.Map[r.Type]))
 		}
 		if seen[r.Type] > 1 {
-			bad("results/type-reported-twice:"+string(r.Type), "duplicate result")
+			rec("results/type-reported-twice:" + string(r.Type))
 		}
 		// no spurious failure (holds on accept and reject)
 		if r.Error != nil && !want.Failed[r.Type] && want.Accept {
@@ -508,22 +514,26 @@ func (w *world) run(lv vt.Level, c cell) observation {
 		for _, t := range []vt.T{tInt, tAuth, tExp, tTS} {
 			rs := vt.ResultOf(outcome, t)
 			if len(rs) != 1 {
-				bad("results/missing-result:"+string(t), fmt.Sprintf("%d results of type %s on success", len(rs), t))
-				continue
+				rec(fmt.Sprintf("results/%d-results-of-type:%s", len(rs), t))
 			}
-			if want.Failed[t] && rs[0].Error == nil {
-				bad("results/logged-failure-not-reported:"+string(t), "validation failed with action log but the reported result has no error")
+			if want.Failed[t] && !anyFailed(rs) {
+				// covers the missing result as well: a logged failure must show in the outcome
+				bad("results/logged-failure-not-reported:"+string(t), fmt.Sprintf("validation failed with action log but none of the %d reported results of the type has an error", len(rs)))
 			}
 		}
 		rs := vt.ResultOf(outcome, tRev)
 		if want.RevDone && len(rs) != 1 {
-			bad("results/missing-result:revocation", fmt.Sprintf("%d revocation results, want 1", len(rs)))
+			rec(fmt.Sprintf("results/%d-results-of-type:revocation", len(rs)))
 		}
 		if !want.RevDone && len(rs) != 0 {
-			bad("results/revocation-reported-though-not-performed", fmt.Sprintf("%d revocation results, want none (skipped or plugin not asked)", len(rs)))
+			if anyFailed(rs) {
+				bad("results/revocation-failure-reported-though-not-performed", fmt.Sprintf("%d revocation results, one with an error, though revocation is skipped or left to a plugin that was not asked", len(rs)))
+			} else {
+				rec("results/revocation-listed-though-not-performed")
+			}
 		}
-		if want.RevDone && len(rs) == 1 && want.Failed[tRev] && rs[0].Error == nil {
-			bad("results/logged-failure-not-reported:revocation", "revocation failed with action log but the reported result has no error")
+		if want.RevDone && want.Failed[tRev] && !anyFailed(rs) {
+			bad("results/logged-failure-not-reported:revocation", "revocation failed with action log but no reported revocation result has an error")
 		}
 		if outcome.Error != nil {
 			bad("results/outcome-error-on-success", outcome.Error.Error())
@@ -538,24 +548,33 @@ func (w *world) run(lv vt.Level, c cell) observation {
 		}
 		bad("calls/native-revocation-performed-though-"+strings.ReplaceAll(why, " ", "-"), fmt.Sprintf("%d validator calls", nRev))
 	}
-	if want.NativeRev && obs.Accept && want.Accept && nRev != 1 {
-		bad("calls/native-revocation-count", fmt.Sprintf("%d validator calls, want exactly 1", nRev))
+	if want.NativeRev && obs.Accept && want.Accept && nRev == 0 {
+		bad("calls/native-revocation-count", "accepted without a single validator call although the level requires native revocation checking")
 	}
 	if nRev > 1 {
-		bad("calls/native-revocation-repeated", fmt.Sprintf("%d validator calls", nRev))
+		rec("calls/native-revocation-repeated")
 	}
 	if plug != nil {
 		n := len(plug.VerifyCalls)
 		if !want.PluginRuns && n != 0 {
-			bad("calls/plugin-executed-though-nothing-to-ask", fmt.Sprintf("%d verify-signature calls", n))
+			rec("calls/plugin-executed-though-nothing-to-ask")
 		}
 		if n > 1 {
-			bad("calls/plugin-executed-repeatedly", fmt.Sprintf("%d calls", n))
+			rec("calls/plugin-executed-repeatedly")
 		}
-		if obs.Accept && want.Accept && want.PluginRuns && n != 1 {
+		if obs.Accept && want.Accept && want.PluginRuns && n == 0 {
 			bad("calls/plugin-not-executed", "accepted without asking the plugin")
 		}
 		for _, rq := range plug.VerifyCalls {
+			if !want.PluginRuns {
+				// nothing was to be asked: only the stated prohibition applies (a skipped revocation is not sent)
+				for _, cp := range rq.TrustPolicy.SignatureVerification {
+					if lv.Map[tRev] == "skip" && cp == REV {
+						bad("calls/skipped-revocation-sent-to-plugin", "plugin asked for revocation although the level skips it")
+					}
+				}
+				continue
+			}
 			got := map[fw.Capability]bool{}
 			for _, cp := range rq.TrustPolicy.SignatureVerification {
 				got[cp] = true
@@ -578,6 +597,15 @@ func (w *world) run(lv vt.Level, c cell) observation {
 		}
 	}
 	return obs
+}
+
+func anyFailed(rs []*notation.ValidationResult) bool {
+	for _, r := range rs {
+		if r != nil && r.Error != nil {
+			return true
+		}
+	}
+	return false
 }
 
 func classify(c cell, s plugSit) string {
@@ -722,6 +750,9 @@ func main() {
 			obs := w.run(lv, c)
 			r.Eval(1)
 			accepts[li] = obs.Accept
+			for _, k := range obs.Rec {
+				r.Outcome("recorded:" + k)
+			}
 			for _, v := range obs.Viol {
 				kv := strings.SplitN(v, " :: ", 2)
 				if strings.HasPrefix(kv[0], "infra/") {
